@@ -67,7 +67,11 @@ def _cover(log):
     return d
 
 def _mon(c, o, prop):
-    if o.startswith("HARNESS-ERROR") or o in ("BADCASE", "PANIC") or o.startswith("MODEL-EXN"):
+    if o.startswith("HARNESS-ERROR"):
+        # the harness could not run the case (time-out, actor gone, ...): a failure of the machinery, not a verdict
+        from svlib import CheckError
+        raise CheckError(f"harness could not run {c[:200]!r}: {o[:300]}")
+    if o in ("BADCASE", "PANIC") or o.startswith("MODEL-EXN"):
         return ("malformed", o[:200])
     p = parse(c, o)
     if p is None: return ("malformed", f"cannot read the observation {o[:200]!r}")
